@@ -265,6 +265,20 @@ def signs_on_path(trace, d: Rat):
     return allowed
 
 
+def path_rejects_nan(trace, atom) -> bool:
+    """A comparison with NaN is never true: a path on which some comparison involving atom came out TRUE (as written: an even
+    number of `not`s around it) cannot be taken when atom is NaN."""
+    for item in trace:
+        c, d = item[0], item[1]
+        neg = False
+        while isinstance(c, tuple) and c and c[0] == "not":
+            c, neg = c[1], not neg
+        if isinstance(c, tuple) and len(c) == 3 and c[0] in ("lt", "le", "gt", "ge", "eq") and isinstance(c[1], Rat) and isinstance(c[2], Rat) \
+                and (atom.id in c[1].deps() or atom.id in c[2].deps()) and (d != neg):
+            return True
+    return False
+
+
 def explore(repo: Repo, cfg: Config, runner: Callable[[Ctx], Val], max_paths=512) -> List[Outcome]:
     """Enumerate the syntactic paths of one evaluation."""
     pending = [[]]
